@@ -1,7 +1,7 @@
-\* quick universe: depth 2 over 5 atoms, tuples of arity <= 2, Option / array / G; naming universe on
+\* quick universe: depth 2 over 5 atoms (two numeric kinds), tuples of arity <= 2, Option / array / G; naming universe on
 SPECIFICATION Spec
 CONSTANTS
-  AtomNames = {"int", "bool", "none", "qubit", "str"}
+  AtomNames = {"int", "nat", "bool", "none", "qubit"}
   NatVals = {0, 2}
   MaxTup = 2
   MaxTupDeep = 2
